@@ -36,6 +36,7 @@ def run(ctx, rep):
     fresh_results(F, rep)
     effects_confined(F, rep)
     index_dispatch(F, rep)
+    index_guard(F, rep)
     values_not_views(F, rep)
     # what an assignment instruction writes into a list / map slot is a value, never a view of another slot (shared rule with C08)
     from props import C08 as _c08
@@ -487,3 +488,35 @@ def values_not_views(F, rep):
                    "the pushed value can come straight from %s" % sorted(set(why_bad)) if why_bad else "", c.span, fn=f.path,
                    key="C13.values-not-views|push|%s" % mir.short(f.path))
     rep.floor("C13.values-not-views pushes into program lists", np, 3)
+
+
+
+def index_guard(F, rep, rule="C13.index-guard"):
+    """`xs[i]` and `xs.remove(i)` with i outside 0 <= i < len stop the program and leave the list as it was.  Structural part: in the arm of
+    `remove` every successful return, and in vec_op every construction of an element view, lies behind the edge of a comparison between the
+    index itself (no arithmetic on it) and the length of the list on which index < len holds.  A test of `index + 1` against len, or a
+    pop()/get() whose own emptiness test stands in for the bounds test, does not count."""
+    from props import _casts
+    run, arms = _casts.arms_of_run(F)
+    blocks = arms.get("VecRemove")
+    if not blocks:
+        raise AnchorMissing("BuiltInFunction::run arm VecRemove")
+    edges, cmps = rules.in_range_edges(run, blocks)
+    oks = [b for b in rules.ok_return_blocks(run) if b in blocks]
+    rep.floor(rule + " successful returns of remove", len(oks), 1)
+    reach = run.reachable(0, removed_edges=edges) if edges else set(range(len(run.blocks)))
+    bad = [b for b in oks if b in reach]
+    rep.ob(rule, "`xs.remove(i)` returns an element only behind the in-range edge of a test of i itself against the length", "violated" if bad else "ok",
+           ("%d successful return(s) reachable without it (comparisons of a plain index with len in the arm: %d): `[1, 2, 3].remove(7)` takes an element off instead of stopping"
+            % (len(bad), len(cmps))) if bad else "%d comparison(s)" % len(cmps), run.blocks[bad[0]]["t"].get("sp") if bad else None, fn=run.path, key=rule + "|remove")
+    vo = F.fn("bytecode::instruction::implementations::vec_op")
+    if vo is None:
+        raise AnchorMissing("implementations::vec_op")
+    views = vo.calls_to("bytecode::variables::primitive::HeapPrimitive::new_array_view")
+    rep.floor(rule + " element views built by vec_op", len(views), 1)
+    edges, cmps = rules.in_range_edges(vo)
+    reach = vo.reachable(0, removed_edges=edges) if edges else set(range(len(vo.blocks)))
+    for i, c in enumerate(views):
+        ok = c.bb not in reach
+        rep.ob(rule, "`xs[i]` builds the element view only behind the in-range edge of a test of i itself against the length", "ok" if ok else "violated",
+               "" if ok else "the view is reachable without it (%d plain comparisons with len)" % len(cmps), c.span, fn=vo.path, key="%s|index#%d" % (rule, i))
